@@ -24,6 +24,31 @@ def rel(steps):
     return f
 
 
+def c03_unit(c):
+    if c.get("infeasible_edge"):
+        return "edge %s -> %s joins bands %d and %d afterwards: it no longer points to a lower band" % (
+            c["infeasible_edge"][0], c["infeasible_edge"][1], c["after"][c["infeasible_edge"][0]], c["after"][c["infeasible_edge"][1]])
+    return None
+
+
+def c10_unit(c):
+    if c["fn"] == "ns":
+        if c.get("infeasible_edge"):
+            return c03_unit(c)
+        if c.get("model_certified") and c["length_after"] > c["model_optimum"]:
+            return "network simplex returns total edge length %d, the certified minimum is %d" % (c["length_after"], c["model_optimum"])
+        if c.get("empty_layer", -1) != -1:
+            return "band %d is empty" % c["empty_layer"]
+        return None
+    if c.get("infeasible_edge"):
+        return c03_unit(c)
+    if c["length_after"] != c["length_before"]:
+        return "total edge length changed from %d to %d" % (c["length_before"], c["length_after"])
+    if c.get("empty_layer", -1) != -1 and c["fn"] == "vbalance":
+        return "band %d is empty afterwards" % c["empty_layer"]
+    return None
+
+
 PROPS = {
     "C01": dict(trace_gen="C02", oracle="C01", relevant=rel({s: set() for s in list(range(0, 9)) + [15, 16]}),
                 trace_env={"VH_DEEP": "1"}, n_trace=dict(quick=96, thorough=800), n_search=dict(quick=1500, thorough=40000)),
@@ -32,20 +57,22 @@ PROPS = {
                 n_trace=dict(quick=200, thorough=2000), n_search=dict(quick=3000, thorough=60000)),
     "C03": dict(trace_gen="C03", oracle="C03",
                 relevant=rel({3: STRUCT, 4: LAYER, 5: LAYER | STRUCT, 6: XY, 7: ROUTE | STRUCT, 8: ROUTE | STRUCT, 9: {1, 2}}),
-                n_trace=dict(quick=200, thorough=2000), n_search=dict(quick=3000, thorough=60000)),
+                n_trace=dict(quick=200, thorough=2000), n_search=dict(quick=3000, thorough=60000),
+                units=["vbalance", "normalize", "ns"], n_units=dict(quick=1200, thorough=12000), unit_classify=c03_unit),
     "C04": dict(trace_gen="C04", oracle="C04", relevant=rel({5: POS, 6: XY | SIZE, 9: {1}}),
                 n_trace=dict(quick=160, thorough=1500), n_search=dict(quick=3000, thorough=60000)),
     "C05": dict(trace_gen="C05", oracle="C05", relevant=rel({6: XY, 7: ROUTE | STRUCT, 8: ROUTE | STRUCT, 9: {1, 2}}),
                 n_trace=dict(quick=200, thorough=2000), n_search=dict(quick=3000, thorough=60000)),
     "C06": dict(trace_gen="C06", oracle="C06", relevant=rel({5: STRUCT | LAYER | POS, 6: XY, 7: ROUTE | STRUCT, 9: {1, 2}}),
                 n_trace=dict(quick=160, thorough=1500), n_search=dict(quick=3000, thorough=60000)),
-    "C07": dict(trace_gen="C07", oracle="C07", relevant=rel(dict({s: ALLF | COMP for s in list(range(0, 10)) + [15, 16]}, **{13: {0}, 15: ALLF | {0}})),
+    "C07": dict(trace_gen="C07", oracle="C07", relevant=rel({**{s: ALLF | COMP for s in list(range(0, 10)) + [16]}, 13: {0}, 15: ALLF | {0}}),
                 trace_env={"VH_DEEP": "1"}, n_trace=dict(quick=96, thorough=800), n_search=dict(quick=1500, thorough=20000)),
     "C08": dict(trace_gen="C08", oracle="C08", relevant=rel({0: ALLF | {50}}),
                 n_trace=dict(quick=200, thorough=2000), n_search=dict(quick=2500, thorough=40000)),
     "C09": dict(trace_gen="C09", oracle="C09", relevant=rel({0: STRUCT, 1: COMP, 9: {1, 2}}),
                 n_trace=dict(quick=160, thorough=1500), n_search=dict(quick=2500, thorough=40000)),
     "C10": dict(trace_gen="C10", oracle="C10", relevant=rel({3: STRUCT, 4: LAYER | TREE, 14: {1, 2, 3}}), trace_env={"VH_CERT": "1"},
+                units=["vbalance", "normalize", "ns"], n_units=dict(quick=1200, thorough=12000), unit_classify=c10_unit,
                 n_trace=dict(quick=200, thorough=2000), n_search=dict(quick=1500, thorough=20000)),
     "C11": dict(trace_gen="C11", oracle="C11", relevant=rel({3: STRUCT, 4: LAYER}),
                 n_trace=dict(quick=200, thorough=2000), n_search=dict(quick=3000, thorough=60000)),
